@@ -28,7 +28,7 @@ PLAN = {
     "thorough": {"shards": 16, "shard_timeout": 3600, "case_timeout": 120, "tournament": 1200000, "lexicase": 1200000, "exhaustive": 40000, "max_case_timeouts": 10},
 }
 THRESHOLDS = {
-    "quick": {"tournament_winners": 4000, "lexicase_winners": 3000, "lexicase_later_winners": 1500, "epsilon_winners": 800, "exhaustive_spaces": 40, "exhaustive_runs": 2000, "tournaments_with_ties": 500, "lexicase_near_equal_values": 300},
+    "quick": {"tournament_winners": 4000, "lexicase_winners": 3000, "lexicase_later_winners": 1500, "epsilon_winners": 800, "exhaustive_spaces": 40, "exhaustive_runs": 2000, "tournaments_with_ties": 500, "lexicase_near_equal_values": 300, "lexicase_populations_with_repeated_objects": 300, "tournament_populations_with_repeated_objects": 300},
     "thorough": {"tournament_winners": 100000, "lexicase_winners": 80000, "exhaustive_spaces": 1000},
 }
 
@@ -39,7 +39,8 @@ def gen_cases(tier, seed):
     for _ in range(plan["tournament"]):
         n = rng.randint(2, 8)
         tpool = [0, 1, 1, 2, 3, 7] if rng.random() < 0.7 else [1e-6, 4e-6, 2e-6, 1.0, 1.000001, float("inf"), float("-inf"), 0.0]
-        yield {"kind": "tournament", "values": [rng.choice(tpool) for _ in range(n)], "size": rng.randint(1, n + 2), "replacement": rng.random() < 0.5, "target": rng.randint(1, n), "minimize": rng.random() < 0.5, "seed": rng.randrange(10**6)}
+        c = {"kind": "tournament", "values": [rng.choice(tpool) for _ in range(n)], "size": rng.randint(1, n + 2), "replacement": rng.random() < 0.5, "target": rng.randint(1, n), "minimize": rng.random() < 0.5, "seed": rng.randrange(10**6)}
+        yield with_copies(rng, c) if rng.random() < 0.25 else c
     for _ in range(plan["lexicase"]):
         n = rng.randint(2, 7)
         m = rng.randint(2, 4)
@@ -47,14 +48,16 @@ def gen_cases(tier, seed):
         pool = [0, 1, 2] if not eps else [0, 0.5, 1, 2, 2.5, 4, 10]
         if not eps and rng.random() < 0.3:  # components that print alike but are not equal
             pool = [1e-6, 4e-6, 2e-6, 0.5, 0.500001]
-        yield {"kind": "lexicase", "values": [[rng.choice(pool) for _ in range(m)] for _ in range(n)], "minimize": [rng.random() < 0.5 for _ in range(m)], "epsilon": eps, "target": rng.randint(1, n), "seed": rng.randrange(10**6)}
+        c = {"kind": "lexicase", "values": [[rng.choice(pool) for _ in range(m)] for _ in range(n)], "minimize": [rng.random() < 0.5 for _ in range(m)], "epsilon": eps, "target": rng.randint(1, n), "seed": rng.randrange(10**6)}
+        yield with_copies(rng, c) if rng.random() < 0.3 else c
     for _ in range(plan["exhaustive"]):
         n = rng.randint(2, 4)
         if rng.random() < 0.5:
             yield {"kind": "tournament", "exhaustive": True, "values": [rng.choice([0, 1, 2]) for _ in range(n)], "size": rng.randint(1, 3), "replacement": rng.random() < 0.5, "target": rng.randint(1, min(n, 2)), "minimize": rng.random() < 0.5, "seed": 0}
         else:
             m = rng.randint(2, 3)
-            yield {"kind": "lexicase", "exhaustive": True, "values": [[rng.choice([0, 1, 2]) for _ in range(m)] for _ in range(n)], "minimize": [rng.random() < 0.5 for _ in range(m)], "epsilon": False, "target": rng.randint(1, n), "seed": 0}
+            c = {"kind": "lexicase", "exhaustive": True, "values": [[rng.choice([0, 1, 2]) for _ in range(m)] for _ in range(n)], "minimize": [rng.random() < 0.5 for _ in range(m)], "epsilon": False, "target": rng.randint(1, n), "seed": 0}
+            yield with_copies(rng, c) if n >= 3 and rng.random() < 0.4 else c
 
 
 def logging_source(base_cls):
@@ -83,7 +86,9 @@ def population(case, multi):
     g, _ = evo.tiny()
     src0 = workload.native(12345 + len(case["values"]))
     rep = evo.make_rep("tree", g, src0)
-    inds = evo.individuals(rep, src0, len(case["values"]))
+    layout = case.get("layout") or list(range(len(case["values"])))
+    distinct = evo.individuals(rep, src0, max(layout) + 1)
+    inds = [distinct[j] for j in layout]  # the same Individual OBJECT may sit at several positions
     fit = evo.TableFitness()
     for ind, v in zip(inds, case["values"]):
         fit.prescribe(ind.get_phenotype(), [float(x) for x in v] if multi else float(v))
@@ -93,7 +98,26 @@ def population(case, multi):
     return rep, inds, fit, prob, ev
 
 
+def with_copies(rng, case):
+    """Puts the same Individual object at several positions (what tournament winners, elites and unchanged offspring
+    look like to the next step): values are per OBJECT, so copies carry equal fitness."""
+    n = len(case["values"])
+    layout = list(range(n))
+    for _ in range(rng.randint(1, max(1, n // 2))):
+        layout[rng.randrange(n)] = layout[rng.randrange(n)]
+    if len(set(layout)) == n:
+        layout[-1] = layout[0]
+    ren = {j: k for k, j in enumerate(dict.fromkeys(layout))}
+    layout = [ren[j] for j in layout]
+    base = {}
+    for pos, j in enumerate(layout):
+        base.setdefault(j, case["values"][pos])
+    return dict(case, layout=layout, values=[base[j] for j in layout])
+
+
 def run_case(case, rec):
+    if case.get("layout"):
+        rec.count(f"{case['kind']}_populations_with_repeated_objects")
     if case["kind"] == "tournament":
         runner = run_tournament
     else:
@@ -200,7 +224,7 @@ def run_lexicase(case, rec, src):
 
     rep, inds, fit, prob, ev = population(case, True)
     step = LexicaseSelection(epsilon=case["epsilon"])
-    wit = {"values": case["values"], "minimize": case["minimize"], "epsilon": case["epsilon"], "target": case["target"]}
+    wit = {"values": case["values"], "same_object_at": case.get("layout"), "minimize": case["minimize"], "epsilon": case["epsilon"], "target": case["target"]}
     avail = list(range(len(inds)))
     winners = []
     try:
@@ -213,14 +237,15 @@ def run_lexicase(case, rec, src):
                 rec.count("lexicase_later_winners")
             if case["epsilon"]:
                 rec.count("epsilon_winners")
-            idx = next((i for i, x in enumerate(inds) if x is w), None)
-            if idx is None:
+            if not any(x is w for x in inds):
                 rec.violation("lexicase:winner-not-in-population", wit)
                 continue
-            winners.append(idx)
-            if idx not in avail:
+            idx = next((i for i in avail if inds[i] is w), None)  # any still-available position holding this object
+            if idx is None:
+                winners.append(next(i for i, x in enumerate(inds) if x is w))
                 rec.violation("lexicase:more-copies-than-the-population-contains", dict(wit, winners=winners))
                 continue
+            winners.append(idx)
             ok = survives(case["values"], case["minimize"], avail, idx, case["epsilon"], True) or (case["epsilon"] and survives(case["values"], case["minimize"], avail, idx, True, False))
             if not ok:
                 rec.violation(f"lexicase:winner-survives-no-case-order:{'first' if nth == 0 else 'later'}:{'epsilon' if case['epsilon'] else 'plain'}", dict(wit, winner=case["values"][idx], nth=nth, available=[case["values"][i] for i in avail]))
